@@ -185,10 +185,53 @@ def run(ctx):
     # ---- A3 back-trace ----------------------------------------------------------------------------------
     a3 = ctx.rule("LIN.A3-backtrace", "on a state boundary start = cur+1, duration = last_frame - start, score = last.score - cur.score, then last_frame <- cur+1: consecutive spans share their boundary; the first state starts at 0 with duration last_frame; tokens record each state's previous back-pointer and score before the back-pointer is overwritten with the state index", floor=8)
     f = sa["state_align_search_finish"]
-    st = [(s["path"], f.canon(s["rhs"], subst=False), paths.guarded(f, s["node"], lambda fn, cc, pol: paths.rel(fn, cc, pol, subst=False) in (("cur.id", "!=", "last.id"), ("last.id", "!=", "cur.id")))) for s in paths.stores(f) if s["path"].startswith("ent->") or s["path"] in ("last_frame", "last")]
-    want = [("last_frame", "sas->frame", False), ("ent->start", "(1 + cur_frame)", True), ("ent->duration", "(last_frame - ent->start)", True), ("ent->score", "(last.score - cur.score)", True),
-            ("last", "cur", True), ("last_frame", "(1 + cur_frame)", True), ("ent->start", "0", False), ("ent->duration", "last_frame", False)]
-    ctx.check(a3, st == want, key(f, "spans"), f.where(f.root), "span assignment is %s, expected %s" % (st, want))
+    # one back-trace step, path by path (symx.loop_paths), in terms of the values at the start of the step
+    from .. import symx
+    lps = f.find("For")
+    okspans, why = len(lps) == 1, "expected one back-trace loop"
+    nb = ns = 0
+    if okspans:
+        for pt in symx.loop_paths(f, lps[0], P):
+            if pt.end != "next":
+                continue
+            V = pt.stored("cur")
+            if V is None:
+                okspans, why = False, "a step does not read the token of the current frame"
+                break
+            V = lin.p_str(V)
+            same = [v_ for k_, v_ in pt.atoms.items() if k_[0] == "==" and "last.id" in k_[1:] and ("(%s).id" % V in k_[1:] or "%s.id" % V in k_[1:])]
+            ent = [(pth, v_) for (pth, v_, n_) in pt.stores if pth.endswith(("->start", "->duration", "->score"))]
+            if not same:
+                okspans, why = False, "a step does not compare the token's state with the state being traced"
+                break
+            if same[0]:
+                ns += 1
+                if ent or pt.stored("last_frame") is not None or pt.stored("last") is not None:
+                    okspans, why = False, "span fields or the boundary are written inside a state"
+                continue
+            nb += 1
+            cf1 = lin.p_add(lin.p_atom("cur_frame"), lin.p_const(1))
+            d = dict((pth.rsplit("->", 1)[1], v_) for pth, v_ in ent)
+            targets = set(pth.rsplit("->", 1)[0] for pth, v_ in ent)
+            sc = lin.p_add(lin.p_atom("last.score"), lin.p_atom("(%s).score" % V), -1)
+            if d.get("start") != cf1:
+                okspans, why = False, "span start is %s, expected cur_frame + 1" % lin.p_str(d.get("start", {}))
+            elif d.get("duration") != lin.p_add(lin.p_atom("last_frame"), cf1, -1):
+                okspans, why = False, "span duration is %s, expected last_frame - (cur_frame + 1)" % lin.p_str(d.get("duration", {}))
+            elif d.get("score") != sc:
+                okspans, why = False, "span score is %s, expected last.score - cur.score" % lin.p_str(d.get("score", {}))
+            elif pt.stored("last_frame") != cf1:
+                okspans, why = False, "the boundary handed to the next span is %s, expected cur_frame + 1 (spans would overlap or leave a gap)" % lin.p_str(pt.stored("last_frame") or {})
+            elif pt.stored("last") is None or lin.p_str(pt.stored("last")) != V:
+                okspans, why = False, "the state being traced is not replaced by the token's"
+            elif len(targets) != 1 or "alignment_iter_goto(itor, last.id)" not in list(targets)[0]:
+                okspans, why = False, "the span is written to %s, not to the entry of the state being left" % sorted(targets)
+        if okspans and not (nb and ns):
+            okspans, why = False, "expected a boundary and a same-state case in the back-trace step"
+    outside = [(s["path"], f.canon(s["rhs"], subst=False)) for s in paths.stores(f) if (s["path"].startswith("ent->") or s["path"] == "last_frame") and f.enclosing(s["node"], ("For", "While", "Do")) is None]
+    if okspans and outside != [("last_frame", "sas->frame"), ("ent->start", "0"), ("ent->duration", "last_frame")]:
+        okspans, why = False, "outside the loop %s; expected last_frame = sas->frame before and start 0 / duration last_frame for the first state after" % outside
+    ctx.check(a3, okspans, key(f, "spans"), f.where(f.root), why)
     gos = f.calls("alignment_iter_goto")
     tg = [f.canon(f.args(c)[1], subst=False) for c in gos]
     ctx.check(a3, tg == ["last.id", "0"], key(f, "targets"), f.where(f.root), "spans are written to states %s, expected the state being left (last.id) and state 0" % tg)
